@@ -95,6 +95,17 @@ def register(op):
     def _(arg):
         kind, spec = arg
         fresh()
+        # a population member whose construction the library refuses (e.g. colliding automatic names)
+        # is not a probe case
+        try:
+            if kind == "domain": dom(*spec)
+            elif kind == "complex": cplx(spec, name="K")
+            elif kind == "macrostate": macro(spec)
+            else: rxn(spec, kind[-1])
+        except (bc.SingletonError, bc.ObjectInitError, AssertionError):
+            fresh()
+            return [["construction-refused", True, True]]
+        fresh()
         out = []
         def attempt(o, attr, value, observe):
             before = observe()
@@ -111,7 +122,9 @@ def register(op):
         elif kind == "complex":
             c = cplx(spec, name="K")
             obs = lambda: [c.name, ckey(c), list(map(str, c.sequence)), list(c.structure), [list(x) for x in c.pair_table],
-                           [list(map(str, x)) for x in c.strand_table]]
+                           [list(map(str, x)) for x in c.strand_table], c.kernel_string,
+                           [[list(map(str, s_)), list(t_)] for s_, t_ in c.rotate()],
+                           [[[list(map(str, r_)) for r_ in st_], [list(r_) for r_ in pt_]] for st_, pt_ in c.rotate_pt()]]
             attempt(c, "name", "zz", obs); attempt(c, "canonical_form", (("a",), (".",)), obs)
             for view in ("sequence", "structure"):
                 v = list(getattr(c, view)); b = obs()
@@ -123,10 +136,23 @@ def register(op):
                 v.append(["?"])
                 out.append([view + "-copy", True, obs() == b])
             b = obs()
-            for (s, t) in c.rotate():
+            for (s, t) in list(c.rotate()):
                 if s: s[0] = "?"
                 if t: t[0] = "?"
+                s.append("?"); t.append("?")
             out.append(["rotate-copy", True, obs() == b])
+            for (st, pt) in list(c.rotate_pt()):
+                for r_ in st: r_.append("?")
+                for r_ in pt: r_.append("?")
+                st.append(["?"]); pt.append(["?"])
+            out.append(["rotate_pt-copy", True, obs() == b])
+            # the same after moving to another rotation and back
+            n_ = c.size
+            c.turns = c.turns + 1
+            for (s, t) in list(c.rotate()):
+                if s: s[0] = "?"
+            c.turns = c.turns - 1
+            out.append(["rotate-copy-after-turns", True, obs() == b])
         elif kind == "macrostate":
             m = macro(spec)
             obs = lambda: [m.name, mkey(m), [x.name for x in m.complexes], m.representative.name]
@@ -147,16 +173,24 @@ def register(op):
 
     @op("c11_macro")
     def _(arg):
-        cspecs, perm1, perm2, named, k = arg
+        cspecs, perm1, perm2, named, k = arg[:5]
+        named2 = arg[5] if len(arg) > 5 else "same"      # "same": the same name again; None: unnamed; int: another member
         fresh()
         cs = [cplx(s, name=f"X{i}") for i, s in enumerate(cspecs)]
         members = [[ckey(c), c.name] for c in cs]
         name = cs[perm1[named]].name if named is not None else None
         m1 = MAC[k]([cs[i] for i in perm1], name) if name else MAC[k]([cs[i] for i in perm1])
-        m2 = MAC[k]([cs[i] for i in perm2], name) if name else MAC[k]([cs[i] for i in perm2])
+        name2 = name if named2 == "same" else (None if named2 is None else cs[perm1[named2]].name)
+        how = "object"
+        try:
+            m2 = MAC[k]([cs[i] for i in perm2], name2) if name2 else MAC[k]([cs[i] for i in perm2])
+        except bc.SingletonError as e:
+            m2 = e.existing
+            how = "refused-existing" if m2 is not None else "refused-none"
+        same = m2 is m1
         res = [members, name, [[x.name for x in m1.canonical_form], m1.name, m1.representative.name, len(m1)],
-               m1 is m2, mkey(m1) == mkey(m2), m1.name == m2.name,
-               sorted(x.name for x in m1.complexes) == sorted(x.name for x in m1.canonical_form)]
+               same, (mkey(m1) == mkey(m2)) if m2 is not None else False, (m1.name == m2.name) if m2 is not None else False,
+               sorted(x.name for x in m1.complexes) == sorted(x.name for x in m1.canonical_form), how]
         del m1, m2, cs
         fresh()
         return res
